@@ -7,7 +7,7 @@ import common
 from common import Broken, sh
 
 BUCKETS = ["balance", "fee", "stake", "unstaking", "withdrawable", "undelegating", "reward_claim", "reward_withdrawing",
-           "proposal_fund", "delegated", "validator_reward_matured", "validator_reward_withdrawn", "validator_reward_interval"]
+           "proposal_fund", "delegated", "validator_reward_matured", "validator_reward_withdrawn", "validator_reward_interval", "bid_escrow"]
 STEPKIND = {0: "BeginBlock", 1: "DeliverTx", 2: "EndBlock"}
 
 # monitor classes of LedgerCheck.step_viol
@@ -174,8 +174,8 @@ def run(ctx, props, mine, known, names, what):
     own = [m for m in mon if m[2] in mine or m[2] in known]
     cov.update({
         "evaluations": rep["steps"], "distinct_nontrivial": rep["distinct_cases"],
-        "rule": "whole-application runs (real app.App through ABCI, Replica): replays of the recorded findings (all fixed: expected to HOLD) + 10 witnesses (incl. a reward withdrawal that matures while the delegation pool is empty, with and without a CheckTx as the last call before each block; a transaction refused in the fee step after its handler ran, followed at once by a spend from the account it had credited; several unstakes of one delegator in one block through maturity and withdrawal; a self-staking candidate with a foreign public key + junk in signature slot 0) + the 5 directed "
-                "scenarios + adversarial-amount histories (22 value-moving kinds incl. self-staked STAKE/UNSTAKE/WITHDRAW; per kind also a pair 'refused in the fee step (gas limit 1) after a successful handler / SEND by the account it touched last of more than, and of nearly all, it owns', and signature lists with a foreign key + junk in the first / last slot at a high fee price; x amounts {-2^64,-1,0,1,base-1,base,base+1,2^63-1,2^63,2^64-2,2^64,"
+        "rule": "whole-application runs (real app.App through ABCI, Replica): replays of the recorded findings (all fixed: expected to HOLD) + 15 witnesses (incl. bid amounts (negative / zero / further offer / counter offer / expiry by a third party); an OLVM contract whose call clears a storage slot (SSTORE refund), reverts, carries value; stakingOptions.maturityTime lowered by a finalised configuration proposal between one validator's unstake and two same-block unstakes of another, both address orders; a reward withdrawal that matures while the delegation pool is empty, with and without a CheckTx as the last call before each block; a transaction refused in the fee step after its handler ran, followed at once by a spend from the account it had credited; several unstakes of one delegator in one block through maturity and withdrawal; a self-staking candidate with a foreign public key + junk in signature slot 0) + the 5 directed "
+                "scenarios + adversarial-amount histories (25 value-moving kinds incl. BID_CREATE / further offer / counter offer, incl. self-staked STAKE/UNSTAKE/WITHDRAW; per kind also a pair 'refused in the fee step (gas limit 1) after a successful handler / SEND by the account it touched last of more than, and of nearly all, it owns', and signature lists with a foreign key + junk in the first / last slot at a high fee price; x amounts {-2^64,-1,0,1,base-1,base,base+1,2^63-1,2^63,2^64-2,2^64,"
                 "2^64+1,10^40} relative to the observed source record x currencies {OLT,ETH,unregistered,empty}; every address field replaced by "
                 "other accounts, signed by the rightful signers / the attacker / the named account) + seeded random histories over ~35 kinds incl. OLVM "
                 "(genHistory); evaluations = ABCI steps (BeginBlock, DeliverTx, EndBlock) whose decoded ledger change was judged by the monitors; "
@@ -203,7 +203,7 @@ def run(ctx, props, mine, known, names, what):
     cov.update(adversarial_tables(cases))
     if rep["unknown_keys"] or rep["undecodable_values"]:
         raise Broken("the decoder met state records it does not recognise (the ledger would be incomplete)",
-                     json.dumps({"unknown": rep["unknown_keys"][:20], "undecodable": rep["undecodable_values"][:20]}))
+                     json.dumps({"unknown": (rep["unknown_keys"] or [])[:20], "undecodable": (rep["undecodable_values"] or [])[:20]}))
     cov["crashed_cases"] = rep.get("crashed_cases") or []
     stats = judge(ctx, cases, mon, corr, mine, known, names)
     if cov["crashed_cases"] and ctx.violations == 0:
